@@ -103,7 +103,6 @@ QXmppTask<QXmppClient::IqResult> QXmppClient::sendIq(QXmppIq &&iq, const std::op
 }
 
 // ------------------------------------------------------------------------------------------------ helpers
-static const QString &S(const QString &s) { return s; }
 #define L(x) QStringLiteral(x)
 
 struct Mgr {
@@ -273,6 +272,32 @@ static void pushUnauth(int nitems)
 }
 extern "C" void h_push_unauth_n1() { pushUnauth(1); }
 extern "C" void h_push_unauth_n2() { pushUnauth(2); }
+
+// any stanza that is not a roster IQ changes nothing: (a) element name other than "iq", (b) first child in another namespace.
+// The tree shape is that of a one-item roster push from the server (no from), so a manager that skipped the first check
+// would apply it.
+static void foreign(bool otherTag)
+{
+    symOwnJid();
+    Mgr m; RefRoster ref;
+    symRoster(m.d, ref);
+    const bool recv = m.d->isRosterReceived;
+    QString tag = L("iq"), ns = L("jabber:iq:roster");
+    if (otherTag) { tag = vpSymString(2); vp_assume(!(tag == L("iq"))); }
+    else { ns = vpSymString(4); }                                      // never the roster namespace (16 units)
+    QDomElement st = el(tag, L("jabber:client"));
+    attr(st, L("type"), vpSymString(6)); attr(st, L("id"), vpSymString(2));
+    QDomElement query = el(L("query"), ns);
+    PushItem pi; QDomElement it = symItem(pi); vp_dom_append(&query, &it);
+    vp_dom_append(&st, &query);
+    bool r = m->QXmppRosterManager::handleStanza(st);
+    vp_assert(!r, "C12 a stanza that is not a roster IQ is not handled by the roster manager");
+    vp_assert(g_nsent == 0 && g_niq == 0 && g_nsig == 0, "C12 a stanza that is not a roster IQ is neither answered nor announced");
+    vp_assert(m.d->isRosterReceived == recv, "C12 a stanza that is not a roster IQ leaves the received flag alone");
+    checkRoster(m.d, ref);
+}
+extern "C" void h_foreign_tag() { foreign(true); }
+extern "C" void h_foreign_ns() { foreign(false); }
 
 // ------------------------------------------------------------------------------------------------ (2) authorised roster IQ
 // from absent / empty / own bare / own full JID (any resource); any IQ type; items applied in order
@@ -469,7 +494,7 @@ static void splitJid(const QString &jid, QString &bare, QString &res)
     bare = jid.left(cut); res = jid.mid(cut + 1);
 }
 #ifndef PRES_NRES
-#define PRES_NRES 1
+#define PRES_NRES 2
 #endif
 extern "C" void h_presence()
 {
